@@ -299,7 +299,7 @@ def deepcopy_unit(u: Unit):
 QNEW = z3.Real("requested_quantum_efficiency")
 
 
-def new_processor_unit(label, qual, call):
+def new_processor_unit(label, qual, call, request=("detector", "pipeline")):
     def un(u: Unit):
         cfg = mk_cfg(u)
         fi = u.fn(qual)
@@ -312,7 +312,7 @@ def new_processor_unit(label, qual, call):
             key2 = L.make_key([VStr("pipeline"), VStr(C08.GROUP), ex.scn["names"][0], VStr("arguments"), ex.scn["argn"][0]])
             # the requested values are arbitrary: they MAY coincide with the values the processor already holds
             ex.st.assume(z3.And(QNEW >= 0, QNEW <= 1))
-            d = ex.st.alloc(HDict([(key, VFloat(QNEW)), (key2, VInt(z3.Int("swept_value")))]))
+            d = ex.st.alloc(HDict(([(key, VFloat(QNEW))] if "detector" in request else []) + ([(key2, VInt(z3.Int("swept_value")))] if "pipeline" in request else [])))
             holder.update(proc=proc, upto=ex.st.next_addr + 1, snap=None)
             holder["snap"] = C08.snapshot(ex)
             swept_arg = str(ex.scn["argn"][0].v)
@@ -329,7 +329,7 @@ def new_processor_unit(label, qual, call):
             try:
                 ncht = st.cell(st.cell(st.cell(p.value).fields["detector"]).fields["_characteristics"]).fields["_quantum_efficiency"]
                 ocht = st.cell(p.ex.scn["cht"]).fields["_quantum_efficiency"]
-                ok = isinstance(ncht, VFloat) and not is_conc(ncht.v) and z3.eq(ncht.v, QNEW) and isinstance(ocht, VFloat) and ocht.v == 0.5
+                ok = isinstance(ncht, VFloat) and isinstance(ocht, VFloat) and ocht.v == 0.5 and ((not is_conc(ncht.v) and z3.eq(ncht.v, QNEW)) if "detector" in request else ncht.v == 0.5)
             except Exception:
                 ok = False
             u.oblige(p, f"{label}.sets_on_the_copy_only", bool(ok), {}, ISO_REPLAY)
@@ -339,6 +339,11 @@ def new_processor_unit(label, qual, call):
 
 unit("C06", "new_processor")(new_processor_unit("new_processor", f"{MISC}::create_new_processor", lambda proc, d: ([], {"processor": proc, "parameter_dict": d})))
 unit("C06", "replace")(new_processor_unit("replace", f"{PR}::Processor.replace", lambda proc, d: ([proc, d], {})))
+# the same for requests that touch only the detector, only the pipeline, or nothing (a copy is a copy whatever is asked of it)
+for _req in (("detector",), ("pipeline",), ()):
+    _t = "+".join(_req) or "nothing"
+    unit("C06", f"replace[{_t}]")(new_processor_unit(f"replace[{_t}]", f"{PR}::Processor.replace", lambda proc, d: ([proc, d], {}), request=_req))
+    unit("C06", f"new_processor[{_t}]")(new_processor_unit(f"new_processor[{_t}]", f"{MISC}::create_new_processor", lambda proc, d: ([], {"processor": proc, "parameter_dict": d}), request=_req))
 
 
 @unit("C06", "calib.per_candidate")
